@@ -47,20 +47,32 @@ def pyvalue(kind, p):
     return p / 10.0
 
 
+def falsy_value(spelling):
+    return {"None": None, "False": False, "0": 0, "0.0": 0.0, "npFalse": np.False_}[spelling]
+
+
 def kwargs_of(n, items):
+    """The Python call of a specification; a parameter 0 is the item's falsy spelling (given, requests nothing)."""
     kw = {}
     for it in items:
         k = it["kind"]
+        val = lambda p: falsy_value(it.get("falsy", "None")) if p == 0 else pyvalue(k, p)   # noqa: E731
         if it["form"] == "scalar":
-            kw[k] = pyvalue(k, it["pars"][0])
+            kw[k] = val(it["pars"][0])
         elif it["form"] == "list":
             lst = [None] * n
             for m, p in zip(it["modes"], it["pars"]):
-                lst[m] = pyvalue(k, p)
+                lst[m] = val(p)
             kw[k] = lst
         else:
-            kw[k] = {m: pyvalue(k, p) for m, p in zip(it["modes"], it["pars"])}
+            kw[k] = {m: val(p) for m, p in zip(it["modes"], it["pars"])}
     return kw
+
+
+def effective_modes(n, it):
+    if it["form"] == "scalar":
+        return set(range(n)) if it["pars"][0] else set()
+    return {m % n for m, p in zip(it["modes"], it["pars"]) if p}
 
 
 def proj_par(kind, par):
@@ -182,9 +194,11 @@ def requested_on(n, items, m):
     to BUILD a start that is meant to be feasible; whether it is, is judged by the spec on the measured start."""
     for it in items:
         if it["form"] == "scalar":
-            return it["kind"], pyvalue(it["kind"], it["pars"][0])
+            if it["pars"][0]:
+                return it["kind"], pyvalue(it["kind"], it["pars"][0])
+            continue
         for k, p in zip(it["modes"], it["pars"]):
-            if k % n == m:
+            if k % n == m and p:
                 return it["kind"], pyvalue(it["kind"], p)
     return None, None
 
@@ -220,12 +234,10 @@ def feasible_start(n, items, shape, rank, seed, dtype):
     return (w.astype(dtype), factors)
 
 
-def exec_run(case):
-    from tensorly.decomposition import constrained_parafac, ConstrainedCP
+def problem_of(case):
+    """(data, init argument, measurements of the caller's start) of one run case."""
     n, items, r = case["n"], case["items"], case["run"]
     t = run_tensor(tuple(r["shape"]), r["data"], case["seed"], r["scale"], r["dtype"])
-    np.random.seed(case["seed"] % (2**31))
-    ev = {"id": case["id"], "op": "run", "n": n, "items": items, "run": r, "raised": False, "exc": "", "factors": [], "start": []}
     init = r["init"]
     if init == "feasible":
         init = feasible_start(n, items, tuple(r["shape"]), r["rank"], case["seed"], r["dtype"])
@@ -234,14 +246,30 @@ def exec_run(case):
         init = (None, [(np.abs(urng.randn(d, r["rank"])) + 0.05).astype(r["dtype"]) for d in r["shape"]])
     elif init == "exact":
         t, init = exact_problem(tuple(r["shape"]), r["rank"], case["seed"], r["scale"], r["dtype"], r["tol"] == "loose")
+    start = []
     if not isinstance(init, str):       # the caller's start, measured BEFORE the call (copies: C15 is not our business)
-        ev["start"] = [measure(f) for f in init[1]]
+        start = [measure(f) for f in init[1]]
         init = (None if init[0] is None else init[0].copy(), [f.copy() for f in init[1]])
+    return t, init, start
+
+
+def call_options(case, init):
+    r = case["run"]
     opts = dict(n_iter_max=r["outer"], n_iter_max_inner=r["inner"], init=init, random_state=case["seed"] % (2**31),
-                fixed_modes=list(r["fixed"]) if r["fixed"] else None, **kwargs_of(n, items))
+                fixed_modes=list(r["fixed"]) if r["fixed"] else None, **kwargs_of(case["n"], case["items"]))
     if r["tol"] == "loose":
         opts["tol_outer"] = 1e-2
+    return opts
+
+
+def exec_run(case):
+    from tensorly.decomposition import constrained_parafac, ConstrainedCP
+    n, items, r = case["n"], case["items"], case["run"]
+    t, init, start = problem_of(case)
+    np.random.seed(case["seed"] % (2**31))
+    ev = {"id": case["id"], "op": "run", "n": n, "items": items, "run": r, "raised": False, "exc": "", "factors": [], "start": start}
     try:
+        opts = call_options(case, init)
         if r["via"] == "class":
             cp = ConstrainedCP(r["rank"], **opts).fit_transform(t)
         else:
@@ -266,7 +294,36 @@ def exec_prox(case):
 
 def exec_seq(case):
     """Members run back to back in THIS process (one pool task): state surviving a call would show."""
+    if case["members"] and case["members"][0]["run"].get("built") == "before_sequence":
+        return {"id": case["id"], "members": exec_built_first(case)}
     return {"id": case["id"], "members": [exec_run(m) for m in case["members"]]}
+
+
+def exec_built_first(case):
+    """ALL ConstrainedCP estimators of the sequence are constructed first, then fitted in case['fit_order']:
+    options of one estimator must not reach another one."""
+    from tensorly.decomposition import ConstrainedCP
+    prepared = []
+    for m in case["members"]:
+        n, items, r = m["n"], m["items"], m["run"]
+        t, init, start = problem_of(m)
+        ev = {"id": m["id"], "op": "run", "n": n, "items": items, "run": r, "raised": False, "exc": "", "factors": [], "start": start}
+        est = None
+        try:
+            est = ConstrainedCP(r["rank"], **call_options(m, init))
+        except Exception as ex:
+            ev["raised"], ev["exc"] = True, type(ex).__name__
+        prepared.append((ev, est, t, m))
+    for j in case["fit_order"]:
+        ev, est, t, m = prepared[j]
+        if est is None:
+            continue
+        np.random.seed(m["seed"] % (2**31))
+        try:
+            ev["factors"] = [measure(f) for f in est.fit_transform(t).factors]
+        except Exception as ex:
+            ev["raised"], ev["exc"] = True, type(ex).__name__
+    return [p[0] for p in prepared]
 
 
 def execute(case):
@@ -282,17 +339,26 @@ def flatten(events):
 
 def shifted(items, d):
     """The same keywords / forms / modes with every numeric parameter moved by d (booleans stay)."""
-    return [dict(it, pars=[p if it["kind"] in BOOL else p + d for p in it["pars"]]) for it in items]
+    return [dict(it, pars=[p if (it["kind"] in BOOL or p == 0) else p + d for p in it["pars"]]) for it in items]
 
 
 # ----------------------------------------------------------------------------- descriptors
 def describe(items, n, run=None):
     """Descriptor-level facts about the user's specification (readability of replay records only)."""
-    return {"kinds": [it["kind"] for it in items], "forms": [it["form"] for it in items]}
+    return {"kinds": [it["kind"] for it in items], "forms": [it["form"] for it in items],
+            "dict_falsy_value": any(it["form"] == "dict" and 0 in it["pars"] for it in items)}
 
 
 def has_hard_request(c):
-    return any(it["kind"] in HARD and (it["form"] == "scalar" or it["modes"]) for it in c["items"])
+    return any(it["kind"] in HARD and effective_modes(c["n"], it) for it in c["items"])
+
+
+def n_effective(c):
+    return sum(1 for it in c["items"] if effective_modes(c["n"], it))
+
+
+def has_falsy(c):
+    return any(p == 0 for it in c["items"] for p in it["pars"])
 
 
 def extra_of(ev, extra):
@@ -314,6 +380,15 @@ def run(chk, opts):
     specs.sort(key=lambda c: (c["n"], len(c["items"]), str(c["items"])))
     rng = random.Random(chk.seed)
 
+    def setof(v):
+        return sorted(v["$set"], key=str) if isinstance(v, dict) else list(v)
+    # falsy-but-given values: the spec says WHERE (parameter 0), the binding draws HOW it is written
+    spellings = setof(dom[3]["falsy"])
+    for c in specs:
+        for it in c["items"]:
+            if any(p == 0 for p in it["pars"]):
+                it["falsy"] = rng.choice([w for w in spellings if not (it["form"] == "scalar" and w == "None")])
+
     cases = []
     for k, c in enumerate(specs):
         d = {"id": "C11/map/%06d" % k, "op": "map", "n": c["n"], "items": c["items"], "seed": chk.seed}
@@ -322,8 +397,6 @@ def run(chk, opts):
     nmap = len(cases)
 
     # ---- binding 2: accepted specifications x the run domain exported by the spec
-    def setof(v):
-        return sorted(v["$set"], key=str) if isinstance(v, dict) else list(v)
     def draw_run(n):
         """One run configuration drawn uniformly from the run domain the spec exported (ValidRun re-checks it)."""
         d = dom[n]
@@ -331,13 +404,14 @@ def run(chk, opts):
             rc = dict(shape=list(rng.choice(setof(d["shapes"]))), rank=rng.choice(setof(d["ranks"])), init=rng.choice(setof(d["inits"])),
                       outer=rng.choice(setof(d["outer"])), inner=rng.choice(setof(d["inner"])), data=rng.choice(setof(d["data"])),
                       fixed=list(rng.choice(setof(d["fixed"]))), via=rng.choice(setof(d["via"])),
-                      scale=rng.choice(setof(d["scales"])), dtype=rng.choice(setof(d["dtypes"])), tol=rng.choice(setof(d["tols"])))
+                      scale=rng.choice(setof(d["scales"])), dtype=rng.choice(setof(d["dtypes"])), tol=rng.choice(setof(d["tols"])), built="at_call")
             if rc["dtype"] == "float32" and rc["scale"] not in (0, -30):
                 continue
             return rc
     accepted = [c for c in specs if not c["rej"] and has_hard_request(c)]
-    singles = [c for c in accepted if len(c["items"]) == 1]
-    pairs = [c for c in accepted if len(c["items"]) == 2]
+    singles = [c for c in accepted if len(c["items"]) == 1 and not has_falsy(c)]
+    pairs = [c for c in accepted if len(c["items"]) == 2 and not has_falsy(c)]
+    offspecs = [c for c in accepted if has_falsy(c)]        # falsy-but-given keywords / entries
     per_single = int(opts.get("per_single", 0)) or (40 if thorough else 3)
     npairs = int(opts.get("pairs", 0)) or (24000 if thorough else 3000)
     picked = []
@@ -364,6 +438,9 @@ def run(chk, opts):
         depth += 1
         if not progressed:
             break
+    noff = int(opts.get("offruns", 0)) or (12000 if thorough else 1500)
+    for c in (offspecs if noff >= len(offspecs) else rng.sample(offspecs, noff)):
+        picked.append((c, draw_run(c["n"])))
     for k, (c, rc) in enumerate(picked):
         d = {"id": "C11/run/%06d" % k, "op": "run", "n": c["n"], "items": c["items"], "run": rc,
              "seed": (chk.seed * 1000003 + k * 7919 + 11) % (2**31)}
@@ -389,7 +466,7 @@ def run(chk, opts):
     # ---- operator events: the real proximal_operator per mode, in every value regime
     nprox_per = int(opts.get("per_prox", 0)) or (4 if thorough else 1)
     for c in singles:
-        req = sorted(set(range(c["n"])) if c["items"][0]["form"] == "scalar" else {m % c["n"] for m in c["items"][0]["modes"]})
+        req = sorted(set().union(*[effective_modes(c["n"], it) for it in c["items"] if it["kind"] in HARD]))
         for _ in range(nprox_per):
             while True:
                 pr = dict(rows=rng.randint(2, 4), cols=rng.randint(1, 3), mode=rng.choice(req), data=rng.choice(setof(dom[c["n"]]["data"])),
@@ -403,20 +480,25 @@ def run(chk, opts):
     # ---- sequences: same keywords / modes, different parameters, back to back in one process
     nseq = int(opts.get("seqs", 0)) or (3000 if thorough else 500)
     shifts = setof(dom[3]["shifts"])
-    seqbase = [c for c in singles if c["items"][0]["kind"] in (COUNT | RADIUS)]
+    seqbase = [c for c in singles if len(c["items"]) == 1 and c["items"][0]["kind"] in (COUNT | RADIUS)]
     rejected = {n: [c for c in specs if c["rej"] and c["n"] == n and not any(m < 0 for it in c["items"] for m in it["modes"])]
                 for n in dom}
     nmembers = 0
     for q_ in range(nseq):
         c = rng.choice(seqbase)
         rc = draw_run(c["n"])
+        if q_ % 2:          # every other sequence: all estimators constructed first, fitted afterwards
+            rc.update(via="class", built="before_sequence")
         order = rng.sample(shifts, rng.choice([2, 3]))
         members = []
         if rng.random() < 0.25 and rejected[c["n"]]:      # a rejected request first: it must leave nothing behind
             members.append(rng.choice(rejected[c["n"]])["items"])
         members += [shifted(c["items"], d) for d in order]
         sid = "C11/seq/%05d" % q_
-        seqcase = {"id": sid, "op": "seq", "n": c["n"], "shifts": order, "members": [
+        fit_order = list(range(len(members)))
+        if rng.random() < 0.5:
+            fit_order.reverse()
+        seqcase = {"id": sid, "op": "seq", "n": c["n"], "shifts": order, "fit_order": fit_order, "members": [
             {"id": "%s.%d" % (sid, j), "op": "run", "n": c["n"], "items": its, "run": rc,
              "seed": (chk.seed * 1000003 + q_ * 15485863 + j * 7919 + 3) % (2**31)} for j, its in enumerate(members)]}
         seqcase.update(describe(c["items"], c["n"], rc))
@@ -442,7 +524,8 @@ def run(chk, opts):
                 "specifications stratified over (kinds, forms); distinct = distinct (specification, run configuration) pairs"
                 "; run domain also x outer 0 x data scale 2^{0,-70,-30,40} x dtype{float64,float32}; + %d proximal_operator events per "
                 "value regime; + %d sequences (%d runs) of 2-3 decompositions with the same keywords/modes and shifted parameters "
-                "executed back to back in one process"
+                "executed back to back in one process (half of them: all ConstrainedCP estimators constructed first, fitted afterwards); "
+                "specifications include falsy-but-given keywords and entries (False, 0, 0.0, numpy.False_, None)"
                 % (len(specs), nrej, nrun, per_single, got, nprox, nseq, nmembers))
     for e in events:
         if "items" in e:
